@@ -468,6 +468,14 @@ class IrToWasmCompiler:
         "DIVF64": "f64.div",
     }
 
+    # Division, remainder and shift right look at the upper bits of their
+    # operands, which are not defined for the narrow types:
+    wrap_operators = {
+        op + str(ty).upper(): ty
+        for op in ("DIV", "REM", "SHR")
+        for ty in (ir.i8, ir.u8, ir.i16, ir.u16, ir.u32)
+    }
+
     cmp_ops = {
         ">": "gt",
         ">=": "ge",
@@ -572,8 +580,13 @@ class IrToWasmCompiler:
         """Implement proper logic for an ir instruction"""
         # TODO: we might have used codegen.treeselector class here...
         if tree.name in self.binop_map:
+            wrap_ty = self.wrap_operators.get(tree.name)
             self.do_tree(tree[0])
+            if wrap_ty:
+                self.emit_wrap(wrap_ty)
             self.do_tree(tree[1])
+            if wrap_ty:
+                self.emit_wrap(wrap_ty)
             opcode = self.binop_map[tree.name]
             self.stack -= 1
             self.emit(opcode)
@@ -664,12 +677,14 @@ class IrToWasmCompiler:
                 self.emit("return")
         elif tree.name in self.cmp_operators:
             # Ensure operands are on stack:
+            ir_ty = self.cmp_operators[tree.name]
             self.do_tree(tree[0])
+            self.emit_wrap(ir_ty)
             self.do_tree(tree[1])
+            self.emit_wrap(ir_ty)
 
             # Create the opcode
             op = tree.value[0]
-            ir_ty = self.cmp_operators[tree.name]
             opcode = self.get_ty(ir_ty) + "." + self.cmp_ops[op]
             if op in ["<", "<=", ">", ">="]:
                 if ir_ty.is_signed:
